@@ -97,6 +97,11 @@ struct HeaderBlock {
     /// Set to true if decoding went over the max header list size.
     is_over_size: bool,
 
+    /// Set to true if a fragment decoded so far made the header block
+    /// malformed. Like `is_over_size`, this has to outlive a single call of
+    /// `load`, since the block may continue in CONTINUATION frames.
+    is_malformed: bool,
+
     /// Pseudo headers, these are broken out as they must be sent as part of the
     /// headers frame.
     pseudo: Pseudo,
@@ -125,6 +130,7 @@ impl Headers {
                 field_size: calculate_headermap_size(&fields),
                 fields,
                 is_over_size: false,
+                is_malformed: false,
                 pseudo,
             },
             flags: HeadersFlag::default(),
@@ -142,6 +148,7 @@ impl Headers {
                 field_size: calculate_headermap_size(&fields),
                 fields,
                 is_over_size: false,
+                is_malformed: false,
                 pseudo: Pseudo::default(),
             },
             flags,
@@ -207,6 +214,7 @@ impl Headers {
                 fields: HeaderMap::new(),
                 field_size: 0,
                 is_over_size: false,
+                is_malformed: false,
                 pseudo: Pseudo::default(),
             },
             flags,
@@ -372,6 +380,7 @@ impl PushPromise {
                 field_size: calculate_headermap_size(&fields),
                 fields,
                 is_over_size: false,
+                is_malformed: false,
                 pseudo,
             },
             promised_id,
@@ -463,6 +472,7 @@ impl PushPromise {
                 fields: HeaderMap::new(),
                 field_size: 0,
                 is_over_size: false,
+                is_malformed: false,
                 pseudo: Pseudo::default(),
             },
             promised_id,
@@ -871,7 +881,7 @@ impl HeaderBlock {
         decoder: &mut hpack::Decoder,
     ) -> Result<(), Error> {
         let mut reg = !self.fields.is_empty();
-        let mut malformed = false;
+        let mut malformed = self.is_malformed;
         let mut header_list_way_too_large = false;
         let mut headers_size = self.calculate_header_list_size();
         let max_header_list_abuse_size =
@@ -972,6 +982,8 @@ impl HeaderBlock {
 
             ControlFlow::Continue(())
         });
+
+        self.is_malformed = malformed;
 
         match res {
             Ok(()) => {}
